@@ -50,6 +50,29 @@ CHECKS = {
              'objects matched by no handler receive no operator write. One listed known finding (value= on create/resume/delete) is '
              'identified by an executable predicate and excluded so that the rest of the space is still compared.',
         design_ref='5/C15'),
+    'C16': dict(
+        engine='pure',
+        technique='model-based property testing: Hypothesis-generated operation sequences (store/purge/touch/diff-base/foreign edits) '
+                  'over generated handler ids, records, storage classes and bodies, executed through kopf\'s storages with an '
+                  'independent RFC 7386 merge as the server; oracle = dictionary reference model (round trip, purge, isolation) '
+                  'plus the Kubernetes qualified-name grammar and cross-process name stability',
+        text='Thousands of generated sequences per run against every stock storage class/prefix/v1-v2 combination, incl. ids up to '
+             '300 characters, ids sharing long prefixes, ReplicaSets of Deployments; two listed known findings (id collisions '
+             'after the safe-character replacement; names starting/ending with a non-alphanumeric character) are identified by '
+             'executable predicates and excluded so that the search continues behind them. Bounded exploration.',
+        note='trusted base: kopfsim/rfc.py merge, the model in props/c16.py, the qualified-name regexes taken from the Kubernetes docs',
+        design_ref='5/C16'),
+    'C18': dict(
+        engine='pure',
+        technique='property-based testing: Hypothesis-generated admission reviews and handler sets through '
+                  'serve_admission_request(); oracles = reference selection predicate, error-specificity order, and differential '
+                  'patch semantics (own RFC 6902 applier on the returned patch vs own RFC 7386 merge of the requested changes + fns)',
+        text='Generated-input exploration of the whole admission entry point (selection by id/type hint, operation/DELETE rule, '
+             'subresource, filters; allowed/denied, message and code of the most specific error, warnings order; patch '
+             'equivalence up to empty mappings). Bounded exploration.',
+        note='trusted base: kopfsim/rfc.py (RFC 7386/6902); hinted requests respect the hinted handler\'s operations (as the API '
+             'server guarantees), see DESIGN 5/C18',
+        design_ref='5/C18'),
 }
 
 REASON_TODO = 'no check is registered for it yet in this revision (planned; see DESIGN.md section 9)'
